@@ -132,7 +132,7 @@ func (o hop) Sexp() string {
 	switch o.kind {
 	case "get", "elem", "rootwrite", "repoint", "summ":
 		return fmt.Sprintf("(%s %d %s)", o.kind, o.h, hx(o.i))
-	case "uvalue", "copy", "pop", "htr", "ser", "blen", "len", "sel", "snap", "count", "iter", "next":
+	case "uvalue", "copy", "pop", "htr", "ser", "blen", "len", "sel", "snap", "count", "iter", "next", "rebuild":
 		return fmt.Sprintf("(%s %d)", o.kind, o.h)
 	case "memo":
 		return "(memo)"
@@ -228,6 +228,30 @@ func (s *hstate) exec(o hop) string {
 				return "ERR"
 			}
 			return errObs(vw.SetBacking(s.views[o.i].Backing()))
+		case "rebuild":
+			// what a snapshot loader does: the tree is rebuilt node by node from PairNode
+			// literals that carry the remembered roots over (exported field Value), sharing kept;
+			// the (hookless) view is re-pointed at the rebuilt tree.  Nothing observable changes,
+			// and what was hashed stays hashed.
+			bb := backedBase(vw)
+			if bb == nil || bb.Hook != nil || !isComposite(t) {
+				return "ERR"
+			}
+			done := map[*tree.PairNode]*tree.PairNode{}
+			var rb func(n tree.Node) tree.Node
+			rb = func(n tree.Node) tree.Node {
+				p, ok := n.(*tree.PairNode)
+				if !ok {
+					return n
+				}
+				if q, ok := done[p]; ok {
+					return q
+				}
+				q := &tree.PairNode{LeftChild: rb(p.LeftChild), RightChild: rb(p.RightChild), Value: p.Value}
+				done[p] = q
+				return q
+			}
+			return errObs(vw.SetBacking(rb(vw.Backing())))
 		case "rootwrite":
 			// the in-place setters of a Root view: the view changes, nothing else may
 			if bv, ok := vw.(view.SmallByteVecView); ok {
@@ -721,6 +745,9 @@ func (hg *histGen) next(s *hstate) hop {
 	c := r.Intn(100)
 	if r.Intn(25) == 0 && isComposite(t) {
 		if bb := backedBase(s.views[h]); bb != nil && bb.Hook == nil {
+			if r.Intn(2) == 0 {
+				return hop{kind: "rebuild", h: h}
+			}
 			var cands []int
 			for k, ht := range s.tys {
 				if k != h && ht != nil && ht.Sexp() == t.Sexp() {
